@@ -29,7 +29,7 @@ git -C /repo worktree remove --force $W
 # now the checks against /repo with the change applied
 cd /repo && git apply $OUT/patch.diff || { echo "patch does not apply to /repo"; exit 2; }
 cd /verif
-bin/vcheck $PID --tier quick > $OUT/vcheck.quick.log 2>&1; Q=$?
+VERIF_EVIDENCE_DIR=/tmp/conf/$NAME.ev bin/vcheck $PID --tier quick > $OUT/vcheck.quick.log 2>&1; Q=$?; rm -rf /tmp/conf/$NAME.ev   # (evidence of a run on a changed tree is not kept)
 git -C /repo checkout -- . ; git -C /repo clean -fdq rlib ; git -C /repo status --short
 python3 - "$NAME" "$PID" "$BASE" "$EXIST" "$WITH" "$Q" "$PKG" "$DEST" <<'PY'
 import json,sys,re,os
